@@ -36,6 +36,10 @@ def units(tier):
         add(kind, "n=2 ca cleanup-acquire", n=2, modes="ca", cap=1, cancel=0)
         add(kind, "n=2 pa acquire-in-cancelled-scope cap=1", n=2, modes="pa", cap=1)
         add(kind, "n=2 pa acquire-in-cancelled-scope cap=2", n=2, modes="pa", cap=2)
+    for cancel in (0, 1):
+        add("lim", "n=2 bb on-behalf-of cap=1 cancel=%d" % cancel, n=2, modes="bb", cap=1, cancel=cancel, J=2)
+    add("lim", "n=2 ba on-behalf-of cap=2 cancel=0", n=2, modes="ba", cap=2, cancel=0, J=2)
+    add("lim", "n=3 bab cap=1 retotal", n=3, modes="bab", cap=1, retotal=True, T=1, J=1)
     add("sem", "n=2 aa fast cancel=1 native", n=2, modes="aa", cap=1, cancel=1, native=True, fast=True)
     add("sem", "n=2 aa intruder", n=2, modes="aa", cap=1, intruder=True)
     add("lim", "n=2 aa intruder", n=2, modes="aa", cap=1, intruder=True)
